@@ -1,0 +1,280 @@
+//go:build verif
+
+package godi
+
+// Contracts for govc (the VC generator under /verif). Comment-only: this file compiles to nothing
+// with or without the "verif" build tag. Every line starting with //@ is contract text.
+//
+// ---------------------------------------------------------------------------------------------
+// Locking discipline of provider and scope (data-race obligations of C09; monitor rule in "conc" mode)
+//@ field scope.instances guarded_by instancesMu contents map[instanceKey]any
+//@ field scope.disposables guarded_by disposablesMu
+//@ field scope.children guarded_by childrenMu contents map[*scope]struct{}
+//@ field scope.disposed atomic
+//@ field scope.id immutable
+//@ field scope.rootProvider immutable
+//@ field scope.parentScope immutable
+//@ field scope.context immutable
+//@ field scope.cancel immutable
+//@ field provider.scopes guarded_by scopesMu contents map[*scope]struct{}
+//@ field provider.disposables guarded_by disposablesMu
+//@ field provider.singletonKeys guarded_by singletonKeysMu
+//@ field provider.voidReturnScopedDescriptors guarded_by voidReturnScopedDescriptorsMu
+//@ field provider.rootScope immutable
+//@ field provider.disposed atomic
+//@ field provider.scopeCounter atomic
+//@ field provider.services immutable
+//@ field provider.groups immutable
+//@ field provider.graph immutable
+//@ field provider.analyzer immutable
+//@ field provider.id immutable
+//@ field Descriptor.Lifetime immutable
+//@ field Descriptor.Type immutable
+//@ field Descriptor.Group immutable
+//@ field Descriptor.Key immutable
+//@ field Descriptor.IsInstance immutable
+//@ field Descriptor.Instance immutable
+//@ field Descriptor.VoidReturn immutable
+//@ field Descriptor.MultiReturnIndex immutable
+//@ field Descriptor.Constructor immutable
+//@ field Descriptor.ConstructorType immutable
+//
+// the disposed flags only ever move from 0 to 1
+//@ rely disposed_monotone_scope: forall r *scope :: old(r.disposed) != 0 ==> r.disposed != 0
+//@ rely disposed_monotone_provider: forall r *provider :: old(r.disposed) != 0 ==> r.disposed != 0
+//
+// User code reached through interfaces and function values: arbitrary, may panic, may re-enter the container.
+//@ func Disposable.Close
+//@   nocheck
+//@   interferes
+//@ func field:scope.cancel
+//@   nocheck
+//@   nopanic
+//@   modifies nothing
+//
+//@ pred occursScope(c *scope, l []*scope) = exists i int :: 0 <= i && i < len(l) && l[i] == c
+//
+// what the mutexes protect (assumed when a lock is acquired, re-established when it is released)
+//@ lockinv scope.disposablesMu tracked_nonnil: forall i int :: 0 <= i && i < len(self.disposables) ==> self.disposables[i] != nil
+//@ lockinv scope.childrenMu children_nonnil: forall c *scope :: (c in self.children) ==> c != nil
+//@ lockinv provider.scopesMu scopes_nonnil: forall c *scope :: (c in self.scopes) ==> c != nil
+//@ lockinv provider.disposablesMu tracked_nonnil: forall i int :: 0 <= i && i < len(self.disposables) ==> self.disposables[i] != nil
+//
+// ---------------------------------------------------------------------------------------------
+//@ func scope.Close
+//@   mode conc
+//@   interferes
+//@   safety[C15,C13,C09]
+//@   requires recv: s != nil
+//@   ghost snap []Disposable
+//@   ghost kids []*scope
+//@   ghost won bool = false
+//@   at after if#1 : ghost won := true
+//@   at after assign disposables#1 : ghost snap := disposables
+//@   at before call s.childrenMu.Unlock#1 : ghost kids := children
+//@   ensures[C12] loser_is_noop: !won ==> result == nil && ncalls("Disposable.Close") == 0 && ncalls("scope.Close") == 0 && ncalls("field:scope.cancel") == 0
+//@   ensures[C12,C13] closed_flag_set: won ==> callret("atomic.CAS:disposed", 0, 0)
+//@   ensures[C14] cancel_called: won && s.cancel != nil ==> ncalls("field:scope.cancel") == 1 && callarg("field:scope.cancel", 0, 0) == s.cancel
+//@   ensures[C13,C10] cascade: won ==> ncalls("scope.Close") == len(kids) && (forall i int :: 0 <= i && i < len(kids) ==> callarg("scope.Close", i, 0) == kids[i])
+//@   ensures[C10,C12] every_disposable_closed_once: won ==> ncalls("Disposable.Close") == len(snap)
+//@        && (forall i int :: 0 <= i && i < len(snap) ==> callarg("Disposable.Close", i, 0) == snap[len(snap) - 1 - i])
+//@   ensures[C11] reverse_order: won ==> (forall i int, j int :: 0 <= i && i < j && j < len(snap) ==>
+//@        calltime("Disposable.Close", len(snap) - 1 - j) < calltime("Disposable.Close", len(snap) - 1 - i))
+//@   ensures[C11] children_first: won ==> (forall i int, j int :: 0 <= i && i < ncalls("scope.Close") && 0 <= j && j < ncalls("Disposable.Close") ==>
+//@        calltime("scope.Close", i) < calltime("Disposable.Close", j))
+//@   ensures[C12] nil_iff_no_failure: won ==> ((result == nil) <==> ((forall i int :: 0 <= i && i < ncalls("scope.Close") ==> callret("scope.Close", i, 0) == nil)
+//@        && (forall i int :: 0 <= i && i < ncalls("Disposable.Close") ==> callret("Disposable.Close", i, 0) == nil)))
+//@   ensures[C12,C15] error_is_disposal_error: result != nil ==> typeis(result, "*DisposalError") && as(result, "*DisposalError") != nil
+//@   at before call s.childrenMu.Unlock#1 : assert[C13,C14] children_detached: s.children == nil
+//@   at before assign s.children#1 : assert[C13] snapshot_complete: forall c *scope :: (c in s.children) ==> occursScope(c, children)
+//@   at before call s.disposablesMu.Unlock#1 : assert[C14,C10] disposables_drained: isnil(s.disposables)
+//@   at before call s.parentScope.childrenMu.Unlock#1 : assert[C14] removed_from_parent: !(s in s.parentScope.children)
+//@   at before call s.rootProvider.scopesMu.Unlock#1 : assert[C14] removed_from_provider: !(s in s.rootProvider.scopes)
+//@   at before call s.instancesMu.Unlock#1 : assert[C14] cache_cleared: s.instances == nil
+//@   loop 1
+//@     invariant collected: forall c *scope :: seen[c] ==> occursScope(c, children)
+//@     invariant only_children: forall i int :: 0 <= i && i < len(children) ==> (children[i] in s.children) && children[i] != nil
+//@     invariant cancel_kept: ncalls("field:scope.cancel") == ite(s.cancel != nil, 1, 0)
+//@   loop 2
+//@     invariant kids_nonnil: forall i int :: 0 <= i && i < len(children) ==> children[i] != nil
+//@     invariant kids_called: ncalls("scope.Close") == idx && (forall i int :: 0 <= i && i < idx ==> callarg("scope.Close", i, 0) == children[i])
+//@     invariant errs_none: (forall i int :: 0 <= i && i < idx ==> callret("scope.Close", i, 0) == nil) ==> len(errs) == 0
+//@     invariant errs_some: len(errs) == 0 ==> (forall i int :: 0 <= i && i < idx ==> callret("scope.Close", i, 0) == nil)
+//@   loop 3
+//@     invariant bounds: 0 - 1 <= i && i < len(disposables)
+//@     invariant called: ncalls("Disposable.Close") == len(disposables) - 1 - i
+//@        && (forall j int :: 0 <= j && j < ncalls("Disposable.Close") ==> callarg("Disposable.Close", j, 0) == disposables[len(disposables) - 1 - j])
+//@     invariant after_children: forall a int, b int :: 0 <= a && a < ncalls("scope.Close") && 0 <= b && b < ncalls("Disposable.Close") ==>
+//@        calltime("scope.Close", a) < calltime("Disposable.Close", b)
+//@     invariant children_before_now: forall a int :: 0 <= a && a < ncalls("scope.Close") ==> calltime("scope.Close", a) < clock
+//@     invariant errs_none: ((forall a int :: 0 <= a && a < ncalls("scope.Close") ==> callret("scope.Close", a, 0) == nil)
+//@        && (forall b int :: 0 <= b && b < ncalls("Disposable.Close") ==> callret("Disposable.Close", b, 0) == nil)) ==> len(errs) == 0
+//@     invariant errs_some: len(errs) == 0 ==> ((forall a int :: 0 <= a && a < ncalls("scope.Close") ==> callret("scope.Close", a, 0) == nil)
+//@        && (forall b int :: 0 <= b && b < ncalls("Disposable.Close") ==> callret("Disposable.Close", b, 0) == nil))
+//@     invariant nonnil: forall j int :: 0 <= j && j < len(disposables) ==> disposables[j] != nil
+//
+// ---------------------------------------------------------------------------------------------
+//@ func provider.setSingleton
+//@   mode conc
+//@   safety[C15,C09]
+//@   requires recv: p != nil
+//@   ghost pre []Disposable
+//@   ghost prekeys []instanceKey
+//@   at after call p.disposablesMu.Lock#1 : ghost pre := p.disposables
+//@   at after call p.singletonKeysMu.Lock#1 : ghost prekeys := p.singletonKeys
+//@   ensures[C01,C10] nil_ignored: instance == nil ==> ncalls("provider.singletons.Store") == 0 && ncalls("provider.disposablesMu.Lock") == 0 && ncalls("provider.singletonKeysMu.Lock") == 0
+//@   ensures[C01] stored: instance != nil ==> ncalls("provider.singletons.Store") == 1 && callarg("provider.singletons.Store", 0, 0) == p
+//@        && callarg("provider.singletons.Store", 0, 1) == box(key) && callarg("provider.singletons.Store", 0, 2) == instance
+//@   ensures[C10] not_disposable_untracked: !typeis(instance, "Disposable") ==> ncalls("provider.disposablesMu.Lock") == 0
+//@   ensures[C10] disposable_tracked_once: typeis(instance, "Disposable") ==> ncalls("provider.disposablesMu.Lock") == 1
+//@   at before call p.disposablesMu.Unlock#1 : assert[C10,C11] appended_last: len(p.disposables) == len(pre) + 1 && p.disposables[len(pre)] == instance
+//@        && (forall i int :: 0 <= i && i < len(pre) ==> p.disposables[i] == pre[i])
+//@   at before call p.singletonKeysMu.Unlock#1 : assert[C10,C14] key_tracked: len(p.singletonKeys) == len(prekeys) + 1 && p.singletonKeys[len(prekeys)] == key
+//
+//@ func scope.setInstance
+//@   mode conc
+//@   safety[C15,C13,C09]
+//@   requires recv: s != nil && descriptor != nil && s.rootProvider != nil
+//@   ghost pre []Disposable
+//@   at after call s.disposablesMu.Lock#1 : ghost pre := s.disposables
+//@   ensures[C01] singleton_delegates: descriptor.Lifetime == Singleton ==> ncalls("provider.setSingleton") == 1
+//@        && callarg("provider.setSingleton", 0, 0) == s.rootProvider && callarg("provider.setSingleton", 0, 1) == key && callarg("provider.setSingleton", 0, 2) == instance
+//@        && ncalls("scope.instancesMu.Lock") == 0 && ncalls("scope.disposablesMu.Lock") == 0
+//@   ensures[C01,C02,C03] only_singletons_delegate: descriptor.Lifetime != Singleton ==> ncalls("provider.setSingleton") == 0
+//@   ensures[C02] scoped_cached_here: descriptor.Lifetime == Scoped ==> ncalls("scope.instancesMu.Lock") == 1 && callarg("scope.instancesMu.Lock", 0, 0) == s
+//@   ensures[C03] transient_not_cached: descriptor.Lifetime != Scoped ==> ncalls("scope.instancesMu.Lock") == 0
+//@   ensures[C10] not_disposable_untracked: !typeis(instance, "Disposable") ==> ncalls("scope.disposablesMu.Lock") == 0
+//@   ensures[C10] tracked_once: (descriptor.Lifetime == Scoped || descriptor.Lifetime == Transient) && typeis(instance, "Disposable") ==>
+//@        ncalls("scope.disposablesMu.Lock") == 1 && callarg("scope.disposablesMu.Lock", 0, 0) == s
+//@   ensures[C10] other_lifetimes_untracked: descriptor.Lifetime != Scoped && descriptor.Lifetime != Transient ==> ncalls("scope.disposablesMu.Lock") == 0
+//@   at before call s.instancesMu.Unlock#1 : assert[C02] cached: (key in s.instances) && s.instances[key] == instance
+//@   at before call s.disposablesMu.Unlock#1 : assert[C10,C11] appended_last: len(s.disposables) == len(pre) + 1 && s.disposables[len(pre)] == instance
+//@        && (forall i int :: 0 <= i && i < len(pre) ==> s.disposables[i] == pre[i])
+//
+// ---------------------------------------------------------------------------------------------
+//@ func provider.Close
+//@   mode conc
+//@   interferes
+//@   safety[C15,C13,C09]
+//@   requires recv: p != nil
+//@   ghost snap []Disposable
+//@   ghost open []*scope
+//@   ghost won bool = false
+//@   ghost root *scope
+//@   at after if#1 : ghost won := true
+//@   at after assign disposables#1 : ghost snap := disposables
+//@   at before call p.scopesMu.Unlock#1 : ghost open := scopes
+//@   at before if#4 : ghost root := p.rootScope
+//@   ensures[C12] loser_is_noop: !won ==> result == nil && ncalls("Disposable.Close") == 0 && ncalls("scope.Close") == 0
+//@   ensures[C13,C10] every_scope_closed: won ==> ncalls("scope.Close") == len(open) + ite(root != nil, 1, 0)
+//@        && (forall i int :: 0 <= i && i < len(open) ==> callarg("scope.Close", i, 0) == open[i])
+//@   ensures[C10,C13] root_scope_closed: won && root != nil ==> callarg("scope.Close", len(open), 0) == root
+//@   ensures[C10,C12] every_singleton_closed_once: won ==> ncalls("Disposable.Close") == len(snap)
+//@        && (forall i int :: 0 <= i && i < len(snap) ==> callarg("Disposable.Close", i, 0) == snap[len(snap) - 1 - i])
+//@   ensures[C11] reverse_order: won ==> (forall i int, j int :: 0 <= i && i < j && j < len(snap) ==>
+//@        calltime("Disposable.Close", len(snap) - 1 - j) < calltime("Disposable.Close", len(snap) - 1 - i))
+//@   ensures[C11] scopes_before_singletons: won ==> (forall i int, j int :: 0 <= i && i < ncalls("scope.Close") && 0 <= j && j < ncalls("Disposable.Close") ==>
+//@        calltime("scope.Close", i) < calltime("Disposable.Close", j))
+//@   ensures[C12] nil_iff_no_failure: won ==> ((result == nil) <==> ((forall i int :: 0 <= i && i < ncalls("scope.Close") ==> callret("scope.Close", i, 0) == nil)
+//@        && (forall i int :: 0 <= i && i < ncalls("Disposable.Close") ==> callret("Disposable.Close", i, 0) == nil)))
+//@   ensures[C12,C15] error_is_disposal_error: result != nil ==> typeis(result, "*DisposalError") && as(result, "*DisposalError") != nil
+//@   at before assign p.scopes#1 : assert[C13] snapshot_complete: forall c *scope :: (c in p.scopes) ==> occursScope(c, scopes)
+//@   at before call p.scopesMu.Unlock#1 : assert[C13,C14] scopes_detached: p.scopes == nil
+//@   at before call p.disposablesMu.Unlock#1 : assert[C14,C10] disposables_drained: isnil(p.disposables)
+//@   loop 1
+//@     invariant collected: forall c *scope :: seen[c] ==> occursScope(c, scopes)
+//@     invariant only_scopes: forall i int :: 0 <= i && i < len(scopes) ==> (scopes[i] in p.scopes) && scopes[i] != nil
+//@   loop 2
+//@     invariant nonnil: forall i int :: 0 <= i && i < len(scopes) ==> scopes[i] != nil
+//@     invariant called: ncalls("scope.Close") == idx && (forall i int :: 0 <= i && i < idx ==> callarg("scope.Close", i, 0) == scopes[i])
+//@     invariant errs_none: (forall i int :: 0 <= i && i < idx ==> callret("scope.Close", i, 0) == nil) ==> len(errors) == 0
+//@     invariant errs_some: len(errors) == 0 ==> (forall i int :: 0 <= i && i < idx ==> callret("scope.Close", i, 0) == nil)
+//@   loop 3
+//@     invariant bounds: 0 - 1 <= i && i < len(disposables)
+//@     invariant called: ncalls("Disposable.Close") == len(disposables) - 1 - i
+//@        && (forall j int :: 0 <= j && j < ncalls("Disposable.Close") ==> callarg("Disposable.Close", j, 0) == disposables[len(disposables) - 1 - j])
+//@     invariant after_scopes: forall a int, b int :: 0 <= a && a < ncalls("scope.Close") && 0 <= b && b < ncalls("Disposable.Close") ==>
+//@        calltime("scope.Close", a) < calltime("Disposable.Close", b)
+//@     invariant scopes_before_now: forall a int :: 0 <= a && a < ncalls("scope.Close") ==> calltime("scope.Close", a) < clock
+//@     invariant errs_none: ((forall a int :: 0 <= a && a < ncalls("scope.Close") ==> callret("scope.Close", a, 0) == nil)
+//@        && (forall b int :: 0 <= b && b < ncalls("Disposable.Close") ==> callret("Disposable.Close", b, 0) == nil)) ==> len(errors) == 0
+//@     invariant errs_some: len(errors) == 0 ==> ((forall a int :: 0 <= a && a < ncalls("scope.Close") ==> callret("scope.Close", a, 0) == nil)
+//@        && (forall b int :: 0 <= b && b < ncalls("Disposable.Close") ==> callret("Disposable.Close", b, 0) == nil))
+//@     invariant nonnil: forall j int :: 0 <= j && j < len(disposables) ==> disposables[j] != nil
+//
+// ---------------------------------------------------------------------------------------------
+// createInstance runs user constructors (through reflection): arbitrary code, may re-enter the container.
+// Panics of the constructor are recovered inside reflection.invokeWithRecovery.
+//
+//@ func scope.resolve
+//@   mode conc
+//@   interferes
+//@   safety[C15,C13,C09]
+//@   requires recv: s != nil && s.rootProvider != nil && s.rootProvider.analyzer != nil
+//@   ghost d *Descriptor
+//@   at before switch#2 : ghost d := descriptor
+//@   ensures[C18] builtin_context: descriptor == nil && key.Key == nil && key.Group == "" && key.Type == contextType ==> result0 == s.context && result1 == nil && ncalls("scope.createInstance") == 0
+//@   ensures[C18] builtin_provider: descriptor == nil && key.Key == nil && key.Group == "" && key.Type == providerType && key.Type != contextType ==> result0 == box(s.rootProvider) && result1 == nil && ncalls("scope.createInstance") == 0
+//@   ensures[C18] builtin_scope: descriptor == nil && key.Key == nil && key.Group == "" && key.Type == scopeType && key.Type != contextType && key.Type != providerType ==> result0 == box(s) && result1 == nil && ncalls("scope.createInstance") == 0
+//@   ensures[C01] singleton_reads_table_only: d != nil && d.Lifetime == Singleton ==> ncalls("scope.createInstance") == 0 && ncalls("provider.singletons.Store") == 0
+//@        && ncalls("provider.singletons.Load") == 1 && callarg("provider.singletons.Load", 0, 0) == s.rootProvider && callarg("provider.singletons.Load", 0, 1) == box(key)
+//@   ensures[C01] singleton_value: d != nil && d.Lifetime == Singleton && callret("provider.singletons.Load", 0, 1) ==> result0 == callret("provider.singletons.Load", 0, 0) && result1 == nil
+//@   ensures[C01,C15] singleton_missing_is_error: d != nil && d.Lifetime == Singleton && !callret("provider.singletons.Load", 0, 1) ==> result0 == nil && result1 != nil
+//@        && typeis(result1, "*ResolutionError") && as(result1, "*ResolutionError").Cause == ErrSingletonNotInitialized
+//@   ensures[C02] scoped_at_most_one_create: d != nil && d.Lifetime == Scoped ==> ncalls("scope.createInstance") <= 1 && ncalls("scope.instancesMu.RLock") == 1 && callarg("scope.instancesMu.RLock", 0, 0) == s
+//@   ensures[C02] scoped_created_for_descriptor: d != nil && d.Lifetime == Scoped && ncalls("scope.createInstance") == 1 ==> callarg("scope.createInstance", 0, 0) == s && callarg("scope.createInstance", 0, 1) == d
+//@        && result0 == callret("scope.createInstance", 0, 0) || result0 == nil
+//@   ensures[C03] transient_always_creates: d != nil && d.Lifetime == Transient ==> ncalls("scope.createInstance") == 1 && callarg("scope.createInstance", 0, 0) == s && callarg("scope.createInstance", 0, 1) == d
+//@        && result0 == callret("scope.createInstance", 0, 0) && result1 == callret("scope.createInstance", 0, 1)
+//@        && ncalls("scope.instancesMu.RLock") == 0 && ncalls("provider.singletons.Load") == 0
+//@   ensures[C15,C08] not_found_is_classifiable: result1 != nil && d == nil ==> result0 == nil && typeis(result1, "*ResolutionError") && as(result1, "*ResolutionError").Cause == ErrServiceNotFound
+//@   ensures[C15] bad_lifetime: d != nil && d.Lifetime != Singleton && d.Lifetime != Scoped && d.Lifetime != Transient ==> result0 == nil && typeis(result1, "*LifetimeError")
+//@   ensures[C15] error_means_no_value: result1 != nil && (d == nil || d.Lifetime != Transient) ==> result0 == nil
+//@   at after call s.getInstance#1 : assert[C02] scoped_hit_no_create: ok ==> ncalls("scope.createInstance") == 0
+//
+//@ func extractParameterTypes
+//@   pure
+//@   safety off
+//
+//@ func scope.createInstance
+//@   mode conc
+//@   interferes
+//@   nopanic
+//@   safety[C15,C13,C09]
+//@   requires recv: s != nil && s.rootProvider != nil && s.rootProvider.analyzer != nil
+//@   ensures[C15] nil_descriptor: descriptor == nil ==> result0 == nil && typeis(result1, "*ValidationError") && ncalls("scope.setInstance") == 0
+//@   ensures[C15] error_means_no_value: result1 != nil ==> result0 == nil
+//@   ensures[C01,C03] constructor_at_most_once: ncalls("reflection.ConstructorInvoker.Invoke") <= 1 && ncalls("reflection.Analyzer.Analyze") <= 1
+//@   ensures[C01,C04] instance_values_never_invoke: descriptor != nil && descriptor.IsInstance ==> ncalls("reflection.ConstructorInvoker.Invoke") == 0 && ncalls("reflection.Analyzer.Analyze") == 0
+//@   ensures[C04] analyzes_registered_constructor: ncalls("reflection.Analyzer.Analyze") == 1 ==> callarg("reflection.Analyzer.Analyze", 0, 1) == ext("(reflect.Value).Interface", "any", descriptor.Constructor)
+//@        && callarg("reflection.Analyzer.Analyze", 0, 0) == s.rootProvider.analyzer
+//@   ensures[C04,C18] invokes_analyzed_info_in_this_scope: ncalls("reflection.ConstructorInvoker.Invoke") == 1 ==> ncalls("reflection.Analyzer.Analyze") == 1
+//@        && callarg("reflection.ConstructorInvoker.Invoke", 0, 1) == callret("reflection.Analyzer.Analyze", 0, 0) && callarg("reflection.ConstructorInvoker.Invoke", 0, 2) == box(s)
+//@   ensures[C15,C10] failed_invoke_stores_nothing: ncalls("reflection.ConstructorInvoker.Invoke") == 1 && callret("reflection.ConstructorInvoker.Invoke", 0, 1) != nil ==>
+//@        ncalls("scope.setInstance") == 0 && result0 == nil && result1 != nil
+//@   ensures[C15] failed_analysis_stores_nothing: ncalls("reflection.Analyzer.Analyze") == 1 && callret("reflection.Analyzer.Analyze", 0, 1) != nil ==>
+//@        ncalls("scope.setInstance") == 0 && ncalls("reflection.ConstructorInvoker.Invoke") == 0 && typeis(result1, "*ReflectionAnalysisError")
+//@        && as(result1, "*ReflectionAnalysisError").Cause == callret("reflection.Analyzer.Analyze", 0, 1)
+//@   ensures[C10,C01] every_store_is_for_this_scope: forall i int :: 0 <= i && i < ncalls("scope.setInstance") ==> callarg("scope.setInstance", i, 0) == s
+//@   at before return#2 : assert[C15] nil_instance_stores_nothing: ncalls("scope.setInstance") == 0
+//@   at before return#3 : assert[C01,C10,C04] instance_stored_once: ncalls("scope.setInstance") == 1 && callarg("scope.setInstance", 0, 1) == descriptor
+//@        && callarg("scope.setInstance", 0, 2) == mk("instanceKey", descriptor.Type, descriptor.Key, descriptor.Group) && callarg("scope.setInstance", 0, 3) == instance && instance == descriptor.Instance
+//@   at before return#5 : assert[C15] panic_exposed: as(box(panicErr), "*reflection.PanicError") == panicErr
+//@   at before return#6 : assert[C15] cause_wrapped: ncalls("scope.setInstance") == 0
+//@   at before return#7 : assert[C10,C02] void_marker_stored_once: ncalls("scope.setInstance") == 1 && callarg("scope.setInstance", 0, 1) == descriptor
+//@   at before return#8 : assert[C15] no_results_stores_nothing: ncalls("scope.setInstance") == 0
+//@   at before return#9 : assert[C15] bad_result_object_stores_nothing: ncalls("scope.setInstance") == 0
+//@   at before return#12 : assert[C10,C01] every_result_field_stored: ncalls("scope.setInstance") == len(registrations)
+//@        && (forall i int :: 0 <= i && i < len(registrations) ==> callarg("scope.setInstance", i, 3) == registrations[i].Value)
+//@   at before return#14 : assert[C10,C01] every_return_value_stored: forall j int :: 0 <= j && j < len(info.Returns) && !info.Returns[j].IsError ==>
+//@        (exists c int :: 0 <= c && c < ncalls("scope.setInstance") && callarg("scope.setInstance", c, 3) == ext("(reflect.Value).Interface", "any", results[info.Returns[j].Index]))
+//@   at before return#15 : assert[C15] nil_result_stores_nothing: ncalls("scope.setInstance") == 0
+//@   at before return#16 : assert[C01,C02,C03,C10] single_output_stored_once: ncalls("scope.setInstance") == 1 && callarg("scope.setInstance", 0, 1) == descriptor
+//@        && callarg("scope.setInstance", 0, 2) == mk("instanceKey", descriptor.Type, descriptor.Key, descriptor.Group) && callarg("scope.setInstance", 0, 3) == instance && instance != nil
+//@   loop 1
+//@     invariant stored_so_far: ncalls("scope.setInstance") == idx && (forall i int :: 0 <= i && i < idx ==> callarg("scope.setInstance", i, 3) == registrations[i].Value)
+//@     invariant own_scope: forall c int :: 0 <= c && c < ncalls("scope.setInstance") ==> callarg("scope.setInstance", c, 0) == s
+//@   loop 2
+//@     invariant own_scope: forall c int :: 0 <= c && c < ncalls("scope.setInstance") ==> callarg("scope.setInstance", c, 0) == s
+//@     invariant stored_so_far: forall j int :: 0 <= j && j < idx && !info.Returns[j].IsError ==>
+//@        (exists c int :: 0 <= c && c < ncalls("scope.setInstance") && callarg("scope.setInstance", c, 3) == ext("(reflect.Value).Interface", "any", results[info.Returns[j].Index]))
